@@ -334,6 +334,38 @@ func c13Body(w *W) {
 // reads root, null, NOP run, closing root). The reference walkers do not model a scalar
 // document, so the oracle is differential: every other document unchanged, this one reads
 // null through Advance+MarshalJSON, and a serialize round trip in every mode reads the same.
+func c13AdvanceIntoWalk(pj *simdjson.ParsedJson) (what string) {
+	defer func() {
+		if r := recover(); r != nil {
+			what = fmt.Sprintf("PANIC in an AdvanceInto walk: %v", r)
+		}
+	}()
+	walk := func(it simdjson.Iter, name string) string {
+		for n := 0; ; n++ {
+			if n > 4*len(pj.Tape)+8 {
+				return name + ": AdvanceInto walk does not terminate"
+			}
+			if it.AdvanceInto() == simdjson.TagEnd {
+				return ""
+			}
+		}
+	}
+	if s := walk(pj.Iter(), "whole tape"); s != "" {
+		return s
+	}
+	top := pj.Iter()
+	for d := 0; top.Advance() == simdjson.TypeRoot; d++ {
+		_, r, err := top.Root(nil)
+		if err != nil {
+			return fmt.Sprintf("Root() of document %d: %v", d, err)
+		}
+		if s := walk(*r, fmt.Sprintf("iterator from Root() of document %d", d)); s != "" {
+			return s
+		}
+	}
+	return ""
+}
+
 func c13TopLevelNull(w *W) {
 	w.Note("top-level containers: SetNull on the top-level container of every document of every seed (each NDJSON line in turn), read back through Advance + MarshalJSON per root and through a serialize round trip in all 4 modes")
 	for _, seed := range editSeeds {
@@ -372,10 +404,15 @@ func c13TopLevelNull(w *W) {
 					bad = "SetNull on the top-level container: " + serr.Error()
 				} else {
 					after = topLevelRender(pj)
+					// a plain AdvanceInto-until-TagEnd walk, on the whole tape and on the iterator
+					// Root() hands out for every document (whose tape view ends where the gap ends)
+					bad = c13AdvanceIntoWalk(pj)
 					root := pj.Iter()
 					out, merr := root.MarshalJSON()
 					lines := strings.Split(strings.TrimRight(string(out), "\n"), "\n")
-					if merr != nil || len(lines) != len(docs) {
+					if bad != "" {
+						// keep the walk's complaint
+					} else if merr != nil || len(lines) != len(docs) {
 						bad = fmt.Sprintf("MarshalJSON after SetNull on the top-level container of document %d: %s (%v), want %d documents", di, clip(string(out)), merr, len(docs))
 					} else {
 						for k, l := range lines {
